@@ -31,6 +31,10 @@ def fuzz_specs(tier, seed, modname, scale=1.0):
 
 def plan(tier: str, seed: int, scale: float = 1.0, max_n_quick=14, max_n_thorough=32, corpus=True, fuzz_mod=None):
     specs = fuzz_specs(tier, seed, fuzz_mod, scale)
+    if fuzz_mod:  # the checks of the restructuring pipeline proper (not C15 / C17, which scale the sweep down)
+        from .checks import c02
+
+        specs += [("big", k) for k, (f, n) in enumerate(c02.BIG) if n in (257, 300) and f.__name__ != "_big_ladder"]
     if tier == "quick":
         specs.append(("enum", 1, 0, 1, 1, 0))
         specs.append(("enum", 2, 0, 1, 1, 0))
@@ -161,6 +165,13 @@ def iterate(spec, visit):
             visit(intg, {k: named[k] for k in order}, "srcshape")
 
         t2()
+    elif kind == "big":
+        # large regular graphs across size thresholds (small-int cache at 256 ...)
+        from .checks import c02
+
+        f, n = c02.BIG[spec[1]]
+        g = f(n)
+        visit(g, gg.restyle(g, "num"), "big")
     else:
         raise ValueError(kind)
 
